@@ -79,6 +79,12 @@ def Sink.writeItem (k : Sink) (i : Item) : Sink :=
   let k := if k.status.isNone then { k with status := some 200, snap := k.hdr } else k
   { k with items := k.items ++ [i] }
 
+/-- `compressionPool.decompressLimited`: inflating to more than `limit` bytes is a size error. -/
+def decompressLimited (w : World) (z : Bytes) (d : Bytes) (limit : Nat) : Except Err Bytes :=
+  match w.decompress z d with
+  | none => .error .other
+  | some r => if r.length > limit then .error (.rpc 8) else .ok r
+
 /-! ### message.advanceToStage -/
 
 structure Codecs where
@@ -88,17 +94,14 @@ structure Codecs where
 
 /-- `message.advanceToStage(op, stageSend)` from `stageRead`, for one message.
     `decompWith` / `compWith` are the pools `decompress` / `compress` would use (`none` = nil). -/
-def transformMsg (w : World) (sameCodec sameCompression wasCompressed : Bool)
+def transformMsg (w : World) (limit : Nat) (sameCodec sameCompression wasCompressed : Bool)
     (decompWith compWith : Option Bytes) (decCodec encCodec : Bytes) (data : Bytes) : Except Err Bytes :=
   if sameCodec && (!wasCompressed || sameCompression) then .ok data
   else
     let decompress (d : Bytes) : Except Err Bytes :=
       match decompWith with
       | none => .ok d
-      | some z => if d.isEmpty then .ok d else
-        match w.decompress z d with
-        | some r => .ok r
-        | none => .error .other
+      | some z => if d.isEmpty then .ok d else decompressLimited w z d limit
     let compress (d : Bytes) : Bytes :=
       match compWith with
       | none => d
@@ -354,7 +357,7 @@ def handleEndMessage (w : World) (tb : Tables) (st : St) (compressed : Bool) (da
   let data? : Option Bytes :=
     if compressed && !data.isEmpty then
       match st.rw.cRespComp with
-      | some z => w.decompress z data
+      | some z => (decompressLimited w z data st.op.conf.maxMsg).toOption
       | none => some data
     else some data
   match data? with
@@ -495,7 +498,7 @@ def twFlushMessage (w : World) (tb : Tables) (st : St) (t : TW) : St × TW × Op
     let (st, failed, p) := handleEndMessage w tb st t.latest.compressed data
     if failed || p then (st, t, some .other, p) else (st, { t with err := true }, none, false)
   else
-    match transformMsg w st.rw.sameRespCodec true t.msgCompressed st.rw.cRespComp st.rw.cRespComp
+    match transformMsg w st.op.conf.maxMsg st.rw.sameRespCodec true t.msgCompressed st.rw.cRespComp st.rw.cRespComp
             st.op.scodec st.op.ccodec data with
     | .error e => (st, t, some e, false)
     | .ok out =>
@@ -641,7 +644,7 @@ def errorWriterClose (w : World) (tb : Tables) (st : St) (body : Bytes) (kind : 
     match st.rw.cRespComp with
     | some z =>
       if body.isEmpty then (e, some body)
-      else match w.decompress z body with
+      else match (decompressLimited w z body st.op.conf.maxMsg).toOption with
         | some d => (e, some d)
         | none =>
           let http := if e.httpCode == 0 || e.httpCode == 200 then 500 else e.httpCode
